@@ -998,71 +998,20 @@ pub fn step(s: &State, op: Op, cfg: &JudgeCfg) -> StepResult {
         }
     }
 
-    // ---- clone_from during which a payload's clone() panics: whatever mixture the overwritten arena
-    // holds afterwards, it is an arena — observable, links consistent, and it can hand out its free
-    // slots and grow without panicking
-    if cfg.target & C13 != 0 {
-        'cb: for (from, to, dir) in [(&s.arena, &arena, "successor.clone_from(&predecessor)"), (&arena, &s.arena, "predecessor.clone_from(&successor)")] {
-            let vals: Vec<u8> = from.iter().filter(|n| !n.is_removed()).filter_map(|n| ops::guarded(|| n.get().0).ok()).collect();
-            for v in vals {
-                let mut x = to.clone();
-                payload::set_clone_bomb(Some(v));
-                let r = ops::guarded(|| x.clone_from(from));
-                payload::set_clone_bomb(None);
-                if r.is_ok() {
-                    continue;
-                }
-                let sane = ops::guarded(|| {
-                    let t = obs::observe(&x);
-                    let mut bad: Vec<String> = crate::judges::j01(&x, &t).into_iter().chain(crate::judges::j02(&t)).map(|f| f.detail).collect();
-                    let free = t.iter().filter(|o| o.removed).count();
-                    let count0 = x.count();
-                    for k in 0..=free {
-                        let live_before: Vec<bool> = x.iter().map(|n| !n.is_removed()).collect();
-                        let id = x.new_node(Payload(210 + k as u8));
-                        let slot = slot_of(id);
-                        if slot < live_before.len() && live_before[slot] {
-                            bad.push(format!("allocation {} handed out the occupied slot {}", k + 1, slot + 1));
-                        }
-                    }
-                    if x.count() > count0 + free + 1 {
-                        bad.push(format!("the arena grew from {count0} to {} slots for {} allocations with {free} removed slots", x.count(), free + 1));
-                    }
-                    bad
-                });
-                let why = match sane {
-                    Ok(b) if b.is_empty() => continue,
-                    Ok(b) => b.join("; "),
-                    Err(m) => format!("using the arena afterwards panicked: {m}"),
-                };
-                fails.push(mk(
-                    C13,
-                    "clone_from",
-                    false,
-                    &op,
-                    class,
-                    "unwound-clone_from-leaves-a-broken-arena",
-                    format!("{dir} with a payload ({v}) whose clone() panics: {why}; source {:?}, destination before {:?}", from, to),
-                ));
-                break 'cb;
-            }
-        }
-    }
-
     // ---- a removal during which a payload destructor panics (the call unwinds from the middle): the
     // nodes *outside* what is being removed are left as after the call (for remove_subtree: also as after
     // detach), or the call has not started (target and outside untouched) — never half-way; and they stay
     // a lawful forest when the slots the call freed are recycled. The bomb sits on the target itself and,
     // for remove_subtree, on each descendant in turn.
-    if cfg.target & (C04 | C10) != 0 && succeeded {
+    if cfg.target & (C01 | C04 | C10) != 0 && succeeded {
         if let Op::Remove(x) | Op::RemoveSubtree(x) = op {
             let id = s.cur[x];
             let gone: Vec<usize> = if matches!(op, Op::Remove(_)) { vec![x] } else { m.subtree(x) };
-            let after_detach: Option<Vec<SlotObs>> = if matches!(op, Op::RemoveSubtree(_)) {
+            // (a call that got as far as unhooking its target and no further: the target, with everything
+            // below it, is a tree of its own)
+            let after_detach: Option<Vec<SlotObs>> = {
                 let mut d = s.arena.clone();
                 ops::guarded(|| id.detach(&mut d)).ok().and_then(|_| ops::guarded(|| obs::observe(&d)).ok())
-            } else {
-                None
             };
             for &y in &gone {
                 let mut tb = s.arena.clone();
@@ -1076,11 +1025,18 @@ pub fn step(s: &State, op: Op, cfg: &JudgeCfg) -> StepResult {
                 let outside = |a: &[SlotObs], b: &[SlotObs]| {
                     a.len() == b.len() && a.iter().zip(b.iter()).enumerate().all(|(z, (p, q))| gone.contains(&z) || (p.removed == q.removed && p.links == q.links && p.payload == q.payload))
                 };
-                let untouched = outside(&t, &s.obs) && gone.iter().all(|&z| !t[z].removed && t[z].links == s.obs[z].links);
-                let accepted = outside(&t, &obs1) || after_detach.as_ref().map(|d| outside(&t, d)).unwrap_or(false) || untouched;
+                // "not started" as far as the others can tell: they are unchanged, and the node they still
+                // link to (the target: parent's child links, the neighbours' sibling links) is still live
+                // and still links back (what happened *inside* what was being removed is nobody's business)
+                // (for remove() the children of the target are among the others: as long as they name it as
+                // their parent it has to list them)
+                let kids_ok = |reference: &[SlotObs]| !matches!(op, Op::Remove(_)) || t[x].links[3..] == reference[x].links[3..];
+                let untouched = outside(&t, &s.obs) && !t[x].removed && t[x].links[..3] == s.obs[x].links[..3] && kids_ok(&s.obs);
+                let detached_only = after_detach.as_ref().map(|d| outside(&t, d) && kids_ok(d)).unwrap_or(false);
+                let accepted = outside(&t, &obs1) || detached_only || untouched;
                 if !accepted {
                     fails.push(mk(
-                        C04 | C10,
+                        C01 | C04 | C10,
                         "unwound-removal",
                         false,
                         &op,
